@@ -33,8 +33,8 @@ type scriptedServer struct {
 
 type stream struct {
 	grpc.ClientStream
-	msgs   chan *v1alpha1.WatchResponse
-	broken chan struct{}
+	msgs      chan *v1alpha1.WatchResponse
+	broken    chan struct{}
 	failFirst error
 }
 
